@@ -27,13 +27,13 @@ VARIANTS = [
     {'name': 'filter-inverted', 'rule': 'C13.R2',
      'edits': [(I, "if chains and line[21] not in chains:", "if chains and line[21] in chains:")]},
     {'name': 'merge-filters-silent', 'expect': 'pass',
-     'edits': [(I, """            if line[17: 20] in ignore_residues:
+     'edits': [(I, """            if line[17: 20].strip() in ignore_residues:
                 continue
             if chains and line[21] not in chains:
                 continue
 """, """            if chains and line[21] not in chains:
                 continue
-            if line[17: 20] in ignore_residues:
+            if line[17: 20].strip() in ignore_residues:
                 continue
 """)]},
     {'name': 'revert-fix-F21-selection-not-materialised', 'rule': 'C13.R2',
